@@ -275,6 +275,8 @@ def k11_contains(ctx, pid: str):
             item, text = t.args
             if not (isinstance(item, ASeq) and I.same_pieces(item.pieces, [Piece("Q", ZERO, Q)])):
                 return None
+            if bool(getattr(text, "upper", False)) != bool(getattr(item, "upper", False)):
+                return None  # the letters of the circle as they are spelt, not a case-folded copy of them (or of the query)
             ps = I.canon(text.pieces)
             if not ps or any(p_.base != "W" for p_ in ps):
                 return None
@@ -339,9 +341,16 @@ def k11_contains(ctx, pid: str):
 
 
 def k5_features(ctx, pid: str):
+    """where the features go under a rotation: evaluated on `>>` and on `<<` (which need not delegate to one another)"""
+    for meth, sign in (("__rshift__", 1), ("__lshift__", -1)):
+        _k5_features(ctx, pid, meth, sign)
+    ctx.report.floor("K5.relocation", 4)
+
+
+def _k5_features(ctx, pid: str, meth: str, sign: int):
     r = ctx.report
     p = ctx.program
-    fi = p.get_func("moclo.record.CircularRecord.__rshift__")
+    fi = p.get_func("moclo.record.CircularRecord.%s" % meth)
     k = Aff.sym("any:k")
     S, E, s, e = Aff.sym("S"), Aff.sym("E"), Aff.sym("s"), Aff.sym("e")
     FT, FID, FQ = Term("ftype"), Term("fid"), Term("fquals")
@@ -418,7 +427,7 @@ def k5_features(ctx, pid: str):
             if scen == "none":
                 out.append(("K5.relocation", name, loc is None, "a feature without location must stay without location, got %r" % (loc,)))
                 return out
-            rr = I.mod(k, N)
+            rr = I.mod(k if sign == 1 else -k, N)
             if isinstance(loc, AStruct) and loc.kind == "Location" and "shifted_by" not in loc.fields:
                 # the location was kept as it is: only right for a feature covering the whole circle
                 whole = (scen == "simple" and I.aff_eq(S, ZERO) and I.aff_eq(E, N) and I.aff_eq(s, ZERO) and I.aff_eq(e, N))
@@ -426,7 +435,11 @@ def k5_features(ctx, pid: str):
                             "a location may be exempted from relocation only when it is proved to be the single part [0, n); on this path bounds [%r, %r), part [%r, %r) are not" % (S, E, s, e)))
                 return out
             parts = None
-            if isinstance(loc, AStruct) and loc.kind == "FeatureLocation":
+            if isinstance(loc, AStruct) and loc.kind == "Location" and "shifted_by" in loc.fields:
+                # the library's `loc + k` handed on as it is (no part needed bringing back on this path)
+                pv = loc.fields.get("parts_value")
+                parts = list(pv.items) if isinstance(pv, AList) and pv.items else None
+            elif isinstance(loc, AStruct) and loc.kind == "FeatureLocation":
                 parts = [loc]
             elif isinstance(loc, AStruct) and loc.kind == "CompoundLocation":
                 pv = loc.fields.get("parts_value")
@@ -455,10 +468,11 @@ def k5_features(ctx, pid: str):
                                 "part %s must be forwarded, got %r" % (fld, part.fields.get(fld))))
             return out
 
-        hooks = {"inline_record_methods": True, "binop": binop_hook}
+        from .kernels import _inline_shift
+
+        hooks = {"inline_record_methods": True, "binop": binop_hook, "shift": _inline_shift}
         outs = run_paths(ctx, fi, make_args, facts, hooks=hooks, post=post)
         emit(ctx, outs, fi.where(), scen + ":")
-    r.floor("K5.relocation", 4)
 
 
 # ---------------------------------------------------------------------------
@@ -1117,7 +1131,10 @@ def k14_walk(ctx, pid: str):
             out.append(("K14.step-append", name, okacc,
                         "the step must append the consumed module's target fragment to the accumulator: got %r" % (acc,)))
             nxt = [v for v in env.values() if isinstance(v, Term) and strip_norm(v) == Term("end", Term(mname))]
-            stale = [v for k_, v in env.items() if isinstance(v, Term) and v == KAPPA]
+            # (a variable that still holds the overhang the step started from matters when the walk goes on from it: the
+            # names the loop's own test reads; a throw-away target of an unpacking that happens to keep it does not)
+            carried = {x.id for x in ast.walk(loop.test) if isinstance(x, ast.Name)} if isinstance(loop, ast.While) else None
+            stale = [v for k_, v in env.items() if isinstance(v, Term) and v == KAPPA and (carried is None or k_.lstrip("^") in carried)]
             out.append(("K14.step-next", name, bool(nxt) and not stale,
                         "the next overhang must be the consumed module's downstream overhang: state %r"
                         % ({k_: v for k_, v in env.items() if isinstance(v, Term)},)))
